@@ -11,12 +11,24 @@ Also decides two clauses of "never panics / always returns":
         offset is a match position (find/rfind, plus the width of an ASCII pattern), the length of a pattern after a
         starts_with/ends_with test, 0 / len, or the string is tested ASCII - or is listed in the reviewed table;
         anything else is a finding (a computed offset can fall inside a multi-byte character, which panics);
+ (cast)  narrowing conversions (`as` from a wider or differently signed integer type, or from a float, to an integer type) in
+        the value-computing code (CAST, arithmetic operators, numeric functions, aggregates, INSERT coercion) are listed
+        in a reviewed table with the reason why the value fits or the behaviour is documented; any other narrowing
+        `as` is a finding (it wraps or saturates silently);
+ (limit) integer arithmetic on the LIMIT / OFFSET values of a statement (usize, taken from the SQL text) in the select
+        helpers is checked or guarded (LIMIT 18446744073709551615 OFFSET 2 is a common idiom);
+ (guard) the trigger recursion guard lives as long as the trigger work: no call into the executor is dominated by the drop
+        of the RecursionGuard obtained at the top of the function (a guard bound to `_` is dropped at once and the
+        depth limit never triggers: unbounded recursion, stack overflow);
+ (sum)  the SUM/AVG accumulator's overflow marker is absorbing: add_sql_values maps a failed addition to NULL, so it must
+        not also treat a NULL operand as the identity (the next row would restart the sum after an overflow);
  (loop) a loop that advances through a string by slicing off `len(pattern)` bytes per iteration is entered only with a
         non-empty pattern (otherwise it never terminates).
 Does NOT decide panic-freedom of the whole executor (hundreds of unwraps and index expressions in 69k lines: an
 unreviewed inventory would only be noise) nor floating-point rounding."""
 import re
 from ..engine.panics import sites_of, auto_discharge
+from ..engine.facts import callee_name
 from ..engine.symexpr import Sym
 from .C23 import _const_nonzero_arg
 from . import shared
@@ -25,7 +37,7 @@ UNITS = {'vibesql_executor', 'vibesql_types', 'vibesql_storage', 'vibesql_catalo
 EX = 'vibesql_executor::'
 SCOPE = (EX + 'evaluator::operators::', EX + 'evaluator::expressions::operators', EX + 'select::grouping::aggregates', EX + 'evaluator::window::',
          EX + 'select::columnar::', EX + 'select::vectorized::', EX + 'simd::', EX + 'procedural::executor::evaluate_expression',
-         EX + 'select::executor::aggregation')
+         EX + 'select::executor::aggregation', EX + 'evaluator::functions::numeric', EX + 'evaluator::casting')
 INT = re.compile(r'^(i8|i16|i32|i64|i128|u8|u16|u32|u64|u128)$')
 
 B = EX + 'select::vectorized::batch::'
@@ -67,6 +79,14 @@ def run(ctx):
             continue
         nfn += 1
         for s in sites_of(prog, f):
+            if s.kind == 'call' and re.search(r'^core::num::<impl i(8|16|32|64|128)>::(abs|pow|isqrt|ilog|ilog2|ilog10|div_euclid|rem_euclid)$', callee_name(s.term) or ''):
+                # panicking integer methods on SQL values (n.abs() of the most negative value)
+                nsites += 1
+                reason = auto_discharge(prog, f, s)
+                ctx.instance(f'wrap/{s.key}', {'rule': 'C24.wrap', 'fn': f.nice, 'loc': s.loc, 'op': s.detail, 'discharged': bool(reason)})
+                if not reason:
+                    per_fn.setdefault((f.nice.split('::{closure')[0], 'neg'), []).append(s)
+                continue
             if s.kind != 'assert':
                 continue
             if not (s.detail.startswith('Overflow') or 'ByZero' in s.detail):
@@ -97,6 +117,10 @@ def run(ctx):
                     'silently in release builds (panics in debug builds) instead of yielding an error', ss[0].loc)
     string_offset_rule(ctx, prog)
     slice_advance_loops(ctx, prog)
+    narrowing_cast_rule(ctx, prog)
+    limit_offset_rule(ctx, prog)
+    recursion_guard_rule(ctx, prog)
+    sum_marker_rule(ctx, prog)
 
 
 STR_OP = re.compile(r'Index(Mut)?::index(_mut)? on (str|alloc::string::String)|^core::str::<impl str>::split_at|'
@@ -280,6 +304,161 @@ def slice_advance_loops(ctx, prog):
                 ctx.finding(f'loop/{root}', f'{root}: a loop advances by slicing {rng[:60]} off the string; with an empty pattern the string never gets shorter and the '
                             'statement never returns', f'{f.file}:{t["l"]}')
     ctx.floor('C24.loop slice-advance loops', n, 6)
+
+
+def limit_offset_rule(ctx, prog):
+    ctx.rule('C24.limit', 'Overflow asserts in vibesql_executor::select whose operand is a LIMIT / OFFSET value (a variable named limit / offset or stmt.limit / '
+             'stmt.offset) are discharged by a dominating guard')
+    VAR = re.compile(r'(?<![A-Za-z_.])(?:stmt\.)?(limit|offset)(?![A-Za-z_(])')
+    n = 0
+    for f in prog.fns.values():
+        if f.unit != 'vibesql_executor' or shared.is_test(f) or f.dk == 'Promoted' or not f.nice.startswith(EX + 'select::'):
+            continue
+        sy = None
+        for x in sites_of(prog, f):
+            if x.kind != 'assert' or not x.detail.startswith('Overflow'):
+                continue
+            sy = sy or Sym(f)
+            ops = [sy.op(o) for o in (x.term.get('ops') or [])]
+            if not any(_is_limit_value(o) for o in ops):
+                continue
+            n += 1
+            reason = auto_discharge(prog, f, x)
+            root = f.nice.split('::{closure')[0]
+            ctx.instance(f'limit/{x.key}', {'rule': 'C24.limit', 'fn': f.nice, 'loc': x.loc, 'op': x.detail, 'operands': [o[:60] for o in ops], 'discharged': bool(reason)})
+            if not reason:
+                ctx.finding(f'limit/{root}/{_opclass(x.detail)}', f'{root}: unchecked {x.detail} on a LIMIT / OFFSET value ({", ".join(o[:40] for o in ops)}): '
+                            'LIMIT 18446744073709551615 OFFSET n panics in debug builds and wraps in release builds', x.loc)
+    ctx.floor('C24.limit arithmetic on LIMIT / OFFSET values', n, 1)
+
+
+CAST_SCOPE = re.compile(r'^vibesql_executor::(evaluator::(casting|functions::numeric|operators)|select::grouping|insert::validation)')
+WIDTH = {'i8': 8, 'i16': 16, 'i32': 32, 'i64': 64, 'i128': 128, 'u8': 8, 'u16': 16, 'u32': 32, 'u64': 64, 'u128': 128, 'isize': 64, 'usize': 64}
+F = EX + 'evaluator::functions::numeric::'
+REVIEWED_CAST = {
+    (EX + 'select::grouping::aggregates::AggregateAccumulator::combine', 'usize', 'i64'): 'size of a set of seen values (a count of rows), far below 2^63',
+    (F + 'exponential::power', 'i64', 'i32'): 'guarded: the exponent is tested 0 <= exp <= i32::MAX before `as i32`',
+    (F + 'rounding::round', 'i64', 'i32'): ('the precision is clamped to i32::MIN ..= i32::MAX before `as i32`', r'^clamp\('),
+    (F + 'rounding::truncate', 'i64', 'i32'): ('the precision is clamped to i32::MIN ..= i32::MAX before `as i32`', r'^clamp\('),
+    (F + 'decimal::format_number', 'usize', 'i32'): 'number of decimal places already clamped to a small usize',
+    (F + 'decimal::format', 'i64', 'usize'): 'decimal places after max(0) / clamp (FORMAT(1.5, -1) gives "2": observed)',
+    (EX + 'evaluator::casting::cast_value', 'i64', 'u64'): 'CAST(.. AS UNSIGNED): wrap-around of negative values is the documented MySQL behaviour (source comment)',
+    (EX + 'evaluator::casting::cast_value', 'f64', 'u64'): 'CAST(float AS UNSIGNED): truncation is the documented MySQL behaviour (source comment)',
+    (EX + 'evaluator::casting::cast_value', 'f32', 'u64'): 'CAST(float AS UNSIGNED): truncation is the documented MySQL behaviour (source comment)',
+    (EX + 'evaluator::casting::cast_value', 'u32', 'u8'): 'month / day of the current date (1..31)',
+    (EX + 'evaluator::casting::float_to_i64', 'f64', 'i64'): 'the helper that performs the range test: `as i64` only after -2^63 <= x < 2^63 and is_finite',
+    (EX + 'evaluator::operators::arithmetic::division::truncated_quotient', 'f64', 'i64'): 'range-tested before the conversion (error otherwise)',
+    (EX + 'insert::validation::coerce_value', 'f64', 'i16'): 'INSERT coercion tests fract() == 0 and the range of the target first ("must be whole number in range", observed)',
+    (EX + 'insert::validation::coerce_value', 'f64', 'i64'): 'INSERT coercion tests fract() == 0 and the range of the target first ("must be whole number in range", observed)',
+}
+
+
+def narrowing_cast_rule(ctx, prog):
+    ctx.rule('C24.cast', 'narrowing `as` conversions to an integer type in CAST, the arithmetic operators, numeric functions, aggregates and INSERT coercion are '
+             'in the reviewed table (value provably fits / documented behaviour); any other one is a finding')
+    seen = {}
+    syms = {}
+    for f in prog.fns.values():
+        if f.unit != 'vibesql_executor' or shared.is_test(f) or f.dk == 'Promoted' or not CAST_SCOPE.match(f.nice):
+            continue
+        root = f.nice.split('::{closure')[0]
+        for b in f.blocks:
+            for st in b['s']:
+                if 'd' in st and st['v']['r'] == 'cast':
+                    fr, to = str(st['v'].get('from')), str(st['v'].get('to'))
+                    narrowing = (fr in WIDTH and to in WIDTH and (WIDTH[to] < WIDTH[fr] or (fr[0] != to[0] and WIDTH[to] <= WIDTH[fr]))) \
+                        or (fr in ('f32', 'f64') and to in WIDTH)
+                    if narrowing:
+                        sy = syms.setdefault(f.path, Sym(f))
+                        seen.setdefault((root, fr, to), []).append((f'{f.file}:{st.get("l", f.line)}', sy.op(st['v']['a'])))
+    ctx.floor('C24.cast narrowing conversions in value-computing code', len(seen), 8)
+    for (root, fr, to), sites in sorted(seen.items()):
+        locs = [l for l, _e in sites]
+        why = REVIEWED_CAST.get((root, fr, to))
+        if isinstance(why, tuple):
+            # the reason holds only while the converted operand has the reviewed shape
+            why = why[0] if all(re.search(why[1], e) for _l, e in sites) else None
+        ctx.instance(f'cast/{root}/{fr}-{to}', {'rule': 'C24.cast', 'fn': root, 'from': fr, 'to': to, 'sites': len(locs), 'reviewed': bool(why)})
+        if why:
+            ctx.exempt(f'cast/{root}/{fr}-{to}', why)
+        else:
+            ctx.finding(f'cast/{root}/{fr}-{to}', f'{root}: `as {to}` applied to a {fr} computed from SQL values ({len(locs)} site(s)): a value that does not fit wraps '
+                        '(integers) or saturates (floats) silently instead of giving the exact value or an error', locs[0])
+
+
+LEAF = re.compile(r'^(?:unwrap_or\()?(?:stmt\.)?(?:limit|offset)(?:@Some\.0)?(?:, const\(\d+\)\))?$')
+
+
+def _is_limit_value(e, depth=0):
+    """the operand is a LIMIT / OFFSET variable itself, or arithmetic over one (not a value that merely depends on one through calls)"""
+    e = e.strip()
+    if LEAF.match(e):
+        return True
+    m = re.match(r'^\((.*)\)(?:\.0)?$', e)
+    if m and depth < 4:
+        inner = m.group(1)
+        d = 0
+        for k in range(len(inner)):
+            ch = inner[k]
+            if ch in '([':
+                d += 1
+            elif ch in ')]':
+                d -= 1
+            elif d == 0 and ch == ' ':
+                mm = re.match(r'^ (Add|Sub|Mul)\w* ', inner[k:])
+                if mm:
+                    return _is_limit_value(inner[:k], depth + 1) or _is_limit_value(inner[k + len(mm.group(0)):], depth + 1)
+    return False
+
+
+def recursion_guard_rule(ctx, prog):
+    from ..engine.cfg import cfg
+    ctx.rule('C24.guard', 'in every function that obtains a RecursionGuard, no call into the vibesql crates is dominated by a (non-unwind) drop of a local of '
+             'type RecursionGuard: the guard is alive while the triggers run')
+    n = 0
+    for f in prog.fns.values():
+        if f.unit != 'vibesql_executor' or shared.is_test(f):
+            continue
+        news = [i for i, t in f.calls() if (callee_name(t) or '').endswith('RecursionGuard::new')]
+        if not news:
+            continue
+        n += 1
+        g = cfg(f)
+        guards = {l for l, ty in enumerate(f.locals) if ty.endswith('RecursionGuard')}
+        drops = [bi for bi, b in enumerate(f.blocks) if b['t']['k'] == 'drop' and not b['t'].get('cleanup') and b['t']['p'][0] in guards and not b['t']['p'][1]]
+        work = [i for i, t in f.calls() if (callee_name(t) or '').startswith('vibesql_') and i not in news]
+        early = [d for d in drops if any(g.dominates(d, w) and d != w for w in work)]
+        ctx.instance(f'guard/{f.nice.rsplit("::", 1)[1]}', {'rule': 'C24.guard', 'fn': f.nice, 'guard_drops': len(drops), 'calls_after_a_drop': len(early)})
+        if early or not drops:
+            ctx.finding(f'guard/{f.nice.rsplit("::", 1)[1]}', f'{f.nice}: the RecursionGuard is dropped before the triggers are executed (bound to `_` / a temporary): the recursion '
+                        'depth never accumulates, a trigger that fires itself overflows the stack instead of hitting the depth limit',
+                        f'{f.file}:{f.blocks[(early or news)[0]]["t"].get("l", f.line)}')
+    ctx.floor('C24.guard functions obtaining a RecursionGuard', n, 4)
+
+
+def sum_marker_rule(ctx, prog):
+    from ..engine.cfg import cfg
+    ctx.rule('C24.sum', 'add_sql_values (SUM / AVG accumulation): if a failed addition is mapped to SqlValue::Null (overflow marker), no path returns a clone of '
+             'one operand after testing the other for NULL (NULL must stay absorbing)')
+    f = ctx.fn(EX + 'select::grouping::aggregates::add_sql_values')
+    sy = Sym(f)
+    maps_err_to_null = False
+    identity = []
+    for bi, b in enumerate(f.blocks):
+        for st in b['s']:
+            if 'd' in st and st['d'][0] == 0 and not st['d'][1] and st['v']['r'] == 'agg' and str(st['v'].get('adt', '')).endswith('SqlValue') \
+                    and st['v'].get('variant') == 'Null':
+                maps_err_to_null = True
+        t = b['t']
+        if t['k'] == 'call' and t.get('d') and t['d'][0] == 0 and re.search(r'Clone>::clone$|::clone$', callee_name(t) or ''):
+            arg = sy.op(t['args'][0])
+            conds = [(c, v) for c, v in shared.deciding_conditions(f, bi, sy) if c.startswith('is_null(') and v != '0']
+            if conds and arg in ('a', 'b'):
+                identity.append((arg, conds[0][0]))
+    ctx.instance('sum/add_sql_values', {'rule': 'C24.sum', 'failed_add_becomes_null': maps_err_to_null, 'null_treated_as_identity': identity})
+    if maps_err_to_null and identity:
+        ctx.finding('sum/add_sql_values', 'add_sql_values maps an overflowing addition to NULL and also returns the other operand when one operand is NULL: after an '
+                    'overflow the next row restarts the sum, SUM / AVG return a wrong finite value instead of NULL', f.loc)
 
 
 def _advance_amount(rng):
